@@ -867,6 +867,8 @@ class Obs:
     def __pow__(self, y):
         if isinstance(y, Obs):
             return derived_observable(lambda x, **kwargs: x[0] ** x[1], [self, y], man_grad=[y.value * self.value ** (y.value - 1), self.value ** y.value * np.log(self.value)])
+        elif isinstance(y, np.ndarray):
+            return np.array([self ** o for o in y])
         elif isinstance(y, (complex, np.complexfloating)):
             modulus = self ** y.real
             phase = y.imag * np.log(self)
